@@ -117,7 +117,7 @@ def run(ck):
                       "program": progs[name], "diff": d, "theorems_no_longer_tied": THEOREMS})
     return ck.finish(level="proof",
         rule="exhaustive over N (truncate 0..=254, decomposition 1..=256) x values {0, r-1, 2^N-1, 2^N, random, v with v+r < 2^N}; every real snapshot compared with the model; honest assignment and alias (v+r) / flipped-bit assignments re-derived on the real layout and decided by the extracted row evaluator",
-        assumptions=["PrimeR (prime r)", "asg ZERO = 0", "completeness (C11_truncate_complete, C11_split_complete, C11_canonical_guard_complete) is proved for the helper values the model computes; that the real gadget computes them is the L3 tie"],
+        assumptions=["PrimeR (prime r): class argument of the statements, proved closed in Props/Hypotheses.v", "asg ZERO = 0", "completeness (C11_truncate_complete, C11_split_complete, C11_canonical_guard_complete) is proved for the helper values the model computes; that the real gadget computes them is the L3 tie"],
         checker_cmd=proofgate.CHECKER_CMD, trusted_base=proofgate.TRUSTED, extra={"exhaustive": True})
 
 def _nw(nb):
